@@ -158,6 +158,11 @@ def sparse_seq(rng, tier):
                     ops.append([5, d, s, 0])
         elif k == 8:
             ops.append([2, rng.below(h), rng.below(w)])
+            if rng.below(3) == 0:
+                # enabling the column index again while it is enabled rebuilds it from the rows (the interface does
+                # not forbid it): stale columns become valid again
+                ops.append([13])
+                M.stale = set()
         elif k == 9 and M.fd() >= 1:
             i = rng.below(h)
             s = rng.below(M.fd())
